@@ -106,6 +106,7 @@ impl Exec {
             EOp::TableAddHere { alias } => return self.table_add(c, top_b.get_hash() ^ (*alias), 0),
             EOp::LibWalk { picks } => return self.lib_walk(top_b, picks),
             EOp::LibTree => return self.lib_tree(top_b),
+            EOp::Edit { sq, kind } => return self.engine_edit(c, t, top_b, top_p, depth, *sq, *kind),
             EOp::TableGetHere { alias } => return self.table_get(c, top_b.get_hash() ^ (*alias)),
             _ => {}
         }
@@ -457,7 +458,18 @@ impl Exec {
                 break;
             }
             let m = list[(*k as usize) % list.len()];
-            let nb = match guard(|| b.make_move_new(m)) {
+            // both move-application entry points take turns (the in-place one writes into a used buffer)
+            let inplace = (*k & 1) == 1;
+            let prev_buf = start;
+            let nb = match guard(|| {
+                if inplace {
+                    let mut out = prev_buf;
+                    b.make_move(m, &mut out);
+                    out
+                } else {
+                    b.make_move_new(m)
+                }
+            }) {
                 Ok(x) => x,
                 Err(e) => return Err(viol("C05", "generated_move_application/panic", format!("{} applying {} in {}", e, m, b))),
             };
@@ -499,6 +511,51 @@ impl Exec {
             }
         }
         self.stats.cnt("reach.full_width_depth2_library_trees");
+        Ok(Flow::Go)
+    }
+
+
+    /// Positions obtained through the deprecated UI setters (C03: "however it was obtained"; C08: the
+    /// hash of an edited board equals the hash of the same position built from scratch).
+    #[allow(deprecated)]
+    fn engine_edit(&mut self, c: usize, t: usize, top_b: Board, top_p: Pos, depth: usize, sq: u8, kind: Option<(Kind, Col)>) -> Result<Flow, Violation> {
+        if !(self.on(3) || self.on(8) || self.on(9)) || depth >= 8 {
+            return Ok(Flow::Go);
+        }
+        // stay inside the quantifier domain: the edited position must itself be a valid position, and
+        // en-passant state (which the setters keep untouched) must not be involved
+        if top_p.ep.is_some() || top_b.en_passant().is_some() {
+            return Ok(Flow::Go);
+        }
+        let mut q = top_p.clone();
+        q.sq[sq as usize] = kind;
+        if q == top_p || q.strict_validity_error().is_some() {
+            return Ok(Flow::Go);
+        }
+        let r = guard(|| match kind {
+            Some((k, col)) => top_b.set_piece(lib_kind(k), lib_col(col), lib_sq(sq)),
+            None => top_b.clear_square(lib_sq(sq)),
+        });
+        let nb = match r {
+            Ok(Some(b)) => b,
+            Ok(None) => {
+                self.stats.cnt("na.setter_refused_a_valid_position");
+                return Ok(Flow::Go);
+            }
+            Err(e) => {
+                if self.on(3) {
+                    return Err(viol("C03", "setter/panic", format!("{} editing {} in {}", e, sq_name(sq), top_p.fen())));
+                }
+                return Ok(Flow::ForeignDivergence(format!("panic in set_piece/clear_square: {}", e)));
+            }
+        };
+        self.stats.cnt("reach.position_obtained_by_setter");
+        {
+            let task = self.eng[c].task(t).unwrap();
+            task.stack.push((nb, q.clone()));
+            task.gen = None;
+        }
+        self.monitor_position(&nb, &q, "setter", None)?;
         Ok(Flow::Go)
     }
 
@@ -652,15 +709,23 @@ impl Exec {
                     1 => false,
                     2 => old == TABLE_DEFAULT,
                     3 => old < stamp,
+                    5 => panic!("predicate gives up"),
                     _ => old % 2 == 1,
                 }
             };
-            tb.replace_if(key, stamp, f);
+            if pred == 5 {
+                // a predicate that never returns true (it unwinds): the slot must keep its content
+                let _ = guard(|| tb.replace_if(key, stamp, f));
+                self.stats.cnt("reach.replace_if_with_unwinding_predicate");
+            } else {
+                tb.replace_if(key, stamp, f);
+            }
             let decision = match pred {
                 0 => true,
                 1 => false,
                 2 => cur.1 == TABLE_DEFAULT,
                 3 => cur.1 < stamp,
+                5 => false,
                 _ => cur.1 % 2 == 1,
             };
             if decision {
